@@ -288,7 +288,10 @@ impl<R: Round> Context<R> {
             let context = Context::<R>::new(work_precision);
             (0, 0, FBig::new(context.repr_round_ref(x).value(), context))
         } else {
-            work_precision = self.precision + series_guard_digits + pow_guard_digits;
+            // the integral digits of x end up in the exponent s and don't contribute to the
+            // precision of the remainder r, so they have to be added to the working precision
+            let int_digits = (x.exponent + x.digits_ub() as isize).max(0) as usize;
+            work_precision = self.precision + series_guard_digits + pow_guard_digits + int_digits;
             let context = Context::<R>::new(work_precision);
             let x = FBig::new(context.repr_round_ref(x).value(), context);
             let logb = context.ln_base::<B>();
